@@ -50,9 +50,9 @@ pub fn plan_for(prop: &str, tier: &str) -> Plan {
         }
         "C02" => {
             p.scenarios = if q {
-                sc(&[("elect", 1), ("elect-pv", 1), ("elect-cq", 1), ("elect-pvcq", 1), ("elect-stale", 0), ("lag2", 0), ("stale", 1), ("member", 1), ("crash3", 1), ("xfer-abort", 0), ("xfer-race", 0), ("elect-pvmig-late", 0), ("xfer-race", 1), ("elect", 3)])
+                sc(&[("elect", 1), ("elect-pv", 1), ("elect-cq", 1), ("elect-pvcq", 1), ("elect-stale", 0), ("lag2", 0), ("lag2-catchup", 0), ("stale", 1), ("member", 1), ("crash3", 1), ("xfer-abort", 0), ("xfer-race", 0), ("elect-pvmig-late", 0), ("xfer-race", 1), ("elect", 3)])
             } else {
-                sc(&[("elect", 1), ("elect-pv", 1), ("elect-cq", 1), ("elect-pvcq", 1), ("elect-stale", 0), ("lag2", 0), ("stale", 1), ("member", 1), ("crash3", 1), ("xfer-abort", 0), ("xfer-race", 0), ("elect-pvmig-late", 0), ("xfer-race", 1), ("elect", 3), ("elect-prio", 3), ("elect-pvcq", 3), ("xfer", 1), ("stale", 2), ("lag2", 1), ("member-joint", 2), ("member", 2), ("elect", 2), ("elect", 4)])
+                sc(&[("elect", 1), ("elect-pv", 1), ("elect-cq", 1), ("elect-pvcq", 1), ("elect-stale", 0), ("lag2", 0), ("lag2-catchup", 0), ("stale", 1), ("member", 1), ("crash3", 1), ("xfer-abort", 0), ("xfer-race", 0), ("elect-pvmig-late", 0), ("xfer-race", 1), ("elect", 3), ("elect-prio", 3), ("elect-pvcq", 3), ("xfer", 1), ("stale", 2), ("lag2", 1), ("member-joint", 2), ("member", 2), ("elect", 2), ("elect", 4)])
             };
             p.required_stats = vec![Stat::LeadersSeen, Stat::VotesGranted];
             p.explanation = "explicit-state exploration; ghost leader_of[term] checked after every API call on every node, across crashes and restarts (crash cuts between receiving a vote request and persisting the vote included)".into();
@@ -191,7 +191,9 @@ pub fn plan_for(prop: &str, tier: &str) -> Plan {
         }
         "C12" => {
             p.components = vec!["confchange"];
-            p.explanation = "joint breadth-first search over (ProgressTracker, reference configuration) pairs from every valid configuration over a small id universe under every change list through simple / enter_joint / leave_joint; invariants, error atomicity, restore round trip and quorum intersection over all subset pairs checked after every call".into();
+            p.scenarios = if q { sc(&[("snap-shrink", 0), ("snap-shrink", 1), ("member-joint", 1), ("member", 1), ("snap-jback", 0)]) } else { sc(&[("snap-shrink", 0), ("snap-shrink", 1), ("member-joint", 1), ("member", 1), ("snap-jback", 0), ("snap-joint", 1), ("member-joint", 2), ("member", 2), ("snap-shrink", 2)]) };
+            p.required_stats = vec![Stat::ConfApplied, Stat::SnapshotsInstalled];
+            p.explanation = "joint breadth-first search over (ProgressTracker, reference configuration) pairs from every valid configuration over a small id universe under every change list through simple / enter_joint / leave_joint; invariants, error atomicity, restore round trip and quorum intersection over all subset pairs checked after every call; plus cluster scenarios (membership changes, snapshot installs whose configuration drops a peer the node tracked, restarts) in which after every API call the tracker must hold progress for exactly the members of the node's active configuration".into();
             p.assumptions = vec!["value bounds: id universe and change-list lengths as listed in the run statistics".into()];
         }
         "C14" => {
